@@ -160,7 +160,7 @@ void h_i_neg(void){ IN(I, a); HGHOSTS; I r; _ZNK4ikos8intervalINS_8z_numberEEngE
  * monotonicity lemma instances of lemmas/mul_mono.smt2 (multiplication is an uninterpreted symbol here) */
 static inline i128 mn(i128 p, i128 q){ return p <= q ? p : q; }
 static inline i128 mx(i128 p, i128 q){ return p <= q ? q : p; }
-#define M ZM_mul
+#define M ZM_mul_pure
 static inline bool L1(i128 lo, i128 g, i128 hi, i128 y){ return !(lo <= g && g <= hi) || (mn(M(lo, y), M(hi, y)) <= M(g, y) && M(g, y) <= mx(M(lo, y), M(hi, y))); }
 static inline bool L2(i128 x, i128 lo, i128 g, i128 hi){ return !(lo <= g && g <= hi) || (mn(M(x, lo), M(x, hi)) <= M(x, g) && M(x, g) <= mx(M(x, lo), M(x, hi))); }
 static inline bool H1(i128 lo, i128 g, i128 y){ return !(lo <= g) || (y >= 0 ? M(lo, y) <= M(g, y) : M(g, y) <= M(lo, y)); }
@@ -265,7 +265,7 @@ IUN(i_lower_half, _ZNK4ikos8intervalINS_8z_numberEE15lower_half_lineEv, (i_has(*
 IUN(i_upper_half, _ZNK4ikos8intervalINS_8z_numberEE15upper_half_lineEv, (i_has(*self, g_x) && g_y >= g_x) ==> i_has(*ret, g_y))
 
 /* ---------------------------------------------------------------- interval: division and remainders */
-#define D ZM_div
+#define D ZM_div_pure
 static inline bool D1(i128 a, i128 g, i128 y){ return !(a <= g && y != 0) || (y > 0 ? D(a, y) <= D(g, y) : D(g, y) <= D(a, y)); }
 static inline bool D2(i128 x, i128 c, i128 g){ return !(c <= g && (c > 0 || g < 0)) || (x >= 0 ? D(x, g) <= D(x, c) : D(x, c) <= D(x, g)); }
 /* instances of lemmas/div_mono.smt2 at the corner points the (recursive) algorithm uses: the operands' bounds and +-1 */
@@ -279,15 +279,18 @@ static inline bool DIV_LEMMAS(I s, I x, i128 gx, i128 gy){
   return ok; }
 /* operator/ is recursive (zero-crossing operands are split); the recursive calls are assumed to satisfy this same
  * contract (--enforce-contract-rec); termination of the recursion is not proved */
-//@check id=i_div fn=_ZNK4ikos8intervalINS_8z_numberEEdvERKS2_ props=C08 rec=1 timeout=1500 first_timeout=1500 backends=cvc5 cost=9 unwind=6
+//@check id=i_div fn=_ZNK4ikos8intervalINS_8z_numberEEdvERKS2_ props=C08 rec=1 timeout=1500 first_timeout=700 backends=minisat,cvc5 cost=9 unwind=6
 IBIN(i_div, _ZNK4ikos8intervalINS_8z_numberEEdvERKS2_, ZB,
      ANYBOT ==> i_bot(*ret),
      (i_has(*self, g_x) && i_has(*x, g_y) && g_y != 0 && DIV_LEMMAS(*self, *x, g_x, g_y)) ==> i_has(*ret, D(g_x, g_y)))
+/* instance of schema R1 of lemmas/zm_sign_rules.smt2 at the ghost points */
+static inline i128 zabs_(i128 a){ return a < 0 ? -a : a; }
+static inline bool REM_RULES(i128 a, i128 b){ i128 r = ZM_rem_pure(a, b); return b == 0 || (zabs_(r) < zabs_(b) && (r == 0 || ((r > 0) == (a > 0)))); }
 /* signed remainder (sign of the dividend, |r| < |divisor|) */
 //@check id=i_srem fn=_ZNK4ikos8intervalINS_8z_numberEE4SRemERKS2_ props=C08
 IBIN(i_srem, _ZNK4ikos8intervalINS_8z_numberEE4SRemERKS2_, ZB,
      ANYBOT ==> i_bot(*ret),
-     (i_has(*self, g_x) && i_has(*x, g_y) && g_y != 0) ==> i_has(*ret, ZM_rem(g_x, g_y)))
+     (i_has(*self, g_x) && i_has(*x, g_y) && g_y != 0 && REM_RULES(g_x, g_y)) ==> i_has(*ret, ZM_rem_pure(g_x, g_y)))
 /* unsigned remainder: operands are the unsigned readings, at ANY bit width w, of the integers in the intervals:
  * a non-negative integer reads as itself, a negative one as 2^w + v (ghost width g_w, 2^w > |v|) */
 i128 g_w;
@@ -299,7 +302,7 @@ __CPROVER_requires(FRESH(i_urem, ret, sizeof(I)) && IFRESH2(i_urem) && i_ok(*sel
 __CPROVER_assigns(*ret)
 __CPROVER_ensures(i_ok(*ret))
 __CPROVER_ensures(ANYBOT ==> i_bot(*ret))
-__CPROVER_ensures((i_has(*self, g_x) && i_has(*x, g_y) && g_y != 0) ==> i_has(*ret, ZM_rem(UREAD(g_x), UREAD(g_y))));
+__CPROVER_ensures((i_has(*self, g_x) && i_has(*x, g_y) && g_y != 0 && REM_RULES(UREAD(g_x), UREAD(g_y))) ==> i_has(*ret, ZM_rem_pure(UREAD(g_x), UREAD(g_y))));
 void h_i_urem(void){ IN(I, a); IN(I, b); HGHOSTS; GHOSTG(i128, g_w); I r; _ZNK4ikos8intervalINS_8z_numberEE4URemERKS2_(&r, &a, &b); REACH; }
 //@check id=i_udiv fn=_ZNK4ikos8intervalINS_8z_numberEE4UDivERKS2_ props=C08
 void _ZNK4ikos8intervalINS_8z_numberEE4UDivERKS2_(I *ret, I *self, I *x)
@@ -307,7 +310,7 @@ __CPROVER_requires(FRESH(i_udiv, ret, sizeof(I)) && IFRESH2(i_udiv) && i_ok(*sel
 __CPROVER_assigns(*ret)
 __CPROVER_ensures(i_ok(*ret))
 __CPROVER_ensures(ANYBOT ==> i_bot(*ret))
-__CPROVER_ensures((i_has(*self, g_x) && i_has(*x, g_y) && g_y != 0) ==> i_has(*ret, ZM_div(UREAD(g_x), UREAD(g_y))));
+__CPROVER_ensures((i_has(*self, g_x) && i_has(*x, g_y) && g_y != 0) ==> i_has(*ret, ZM_div_pure(UREAD(g_x), UREAD(g_y))));
 void h_i_udiv(void){ IN(I, a); IN(I, b); HGHOSTS; GHOSTG(i128, g_w); I r; _ZNK4ikos8intervalINS_8z_numberEE4UDivERKS2_(&r, &a, &b); REACH; }
 
 /* ---------------------------------------------------------------- interval: bitwise (infinite-precision two's complement) */
